@@ -167,6 +167,7 @@ INJECT = [
     ("native/server.rs", "src/server/mod.rs", "verif_nat_server", ("native",)),
     ("native/input_column.rs", "src/ingest/input_column.rs", "verif_nat_input_column", ("native",)),
     ("native/partition_segment.rs", "src/disk_store/partition_segment.rs", "verif_nat_partition_segment", ("native",)),
+    ("native/storage.rs", "src/disk_store/storage.rs", "verif_nat_storage", ("native",)),
 ]
 
 
